@@ -58,6 +58,7 @@ class Lowerer:
         self.overloads = {}    # qname -> set of first-decl ids
         self._fn_types_cache = {}
         self._unified_cache = {}
+        self._cname_owner = {}
         self.index()
         # emission state
         self.needed_funcs = {}     # first id -> cname (queued for emission)
@@ -191,7 +192,7 @@ class Lowerer:
         for nid, n in self.byid.items():
             if n.get('kind') in FUNC_KINDS and nid not in self.dependent:
                 first = self.first_of.get(nid, nid)
-                qn = self.qname(self.byid[first])
+                qn = self.qname(self.byid.get(first, n))
                 if qn is None:
                     continue
                 self.overloads.setdefault(qn, set()).add(first)
@@ -720,6 +721,17 @@ class Lowerer:
             self.extern_funcs[first] = name
             return name
         cname = self.cname_of(first)
+        # two distinct declarations must never share a C name (e.g. instantiations that differ only in a template
+        # template argument, which clang's JSON does not print): disambiguate with the Itanium mangled name
+        owner = self._cname_owner.get(cname)
+        if owner is not None and owner != first:
+            import hashlib
+            mn = (self.body_of.get(first, n)).get('mangledName') or n.get('mangledName') or first
+            cname = cname + '__' + re.sub(r'[^A-Za-z0-9]', '', mn)[-24:]
+            owner2 = self._cname_owner.get(cname)
+            if owner2 is not None and owner2 != first:
+                raise LowerError('C name collision for %s' % qn)
+        self._cname_owner[cname] = first
         has_body = first in self.body_of
         virtual = bool(n.get('virtual'))
         if virtual or not has_body or cname in self.stub_names:
@@ -897,7 +909,39 @@ class Lowerer:
             parts.extend(body)
         return '\n'.join(parts) + '\n'
 
+    def static_census(self, src_prefix):
+        """every variable with static storage duration declared in files under src_prefix: (qname, file, line, type, const?)"""
+        out = []
+        seen = set()
+        for nid, n in self.byid.items():
+            if n.get('kind') != 'VarDecl':
+                continue
+            f = n.get('_file') or ''
+            if not f.startswith(src_prefix):
+                continue
+            par = self.parent.get(nid)
+            pk = par.get('kind') if par else None
+            static_storage = n.get('storageClass') == 'static' or pk in ('NamespaceDecl', 'TranslationUnitDecl') or \
+                (pk in RECORD_KINDS) or pk in ('VarTemplateDecl',)
+            # locals without 'static' have automatic storage
+            if not static_storage:
+                continue
+            if n.get('storageClass') == 'extern' and not n.get('inner'):
+                pass
+            key = (f, n.get('_line'), n.get('name'))
+            if key in seen:
+                continue
+            seen.add(key)
+            qt = n.get('type', {}).get('qualType', '')
+            dq = n.get('type', {}).get('desugaredQualType', qt)
+            is_const = bool(n.get('constexpr')) or qt.startswith('const ') or dq.startswith('const ') or ' const' in qt or \
+                re.search(r'\bconst\b', qt.split('[')[0]) is not None
+            out.append({'name': self.qname(n) or n.get('name'), 'file': f, 'line': n.get('_line'), 'type': qt, 'const': is_const,
+                        'dependent': nid in self.dependent})
+        return out
+
     def reset_emission(self):
+        self._cname_owner = {}
         self.needed_funcs = {}
         self.queue = []
         self.extern_funcs = {}
